@@ -56,7 +56,26 @@ def snapshot(model) -> dict:
         'chilleropex': g(e.chilleropex), 'cdhoam': g(e.dhdistrictoandmcost), 'coam': g(e.Coam),
         'redrill': int(w.redrill.value), 'L': int(sp.plant_lifetime.value),
     }
-    return {'c': c, 'family': type(e).__name__, 'plant': str(sp.plant_type.value.name), 'enduse': str(sp.enduse_option.value.name),
+    # end-use equipment costs written in the input (the raw user text), and the figure the economics module ended up with
+    equip = []
+    pt = sp.plant_type.value
+    # (a user-fixed total replaces the whole roll-up: its components are then not evaluated at all)
+    for name, attr, plant, blocked in (('Absorption Chiller Capital Cost', 'chillercapex', PlantType.ABSORPTION_CHILLER, False),
+                                       ('Absorption Chiller O&M Cost', 'chilleropex', PlantType.ABSORPTION_CHILLER, c['totaloam']),
+                                       ('Heat Pump Capital Cost', 'heatpumpcapex', PlantType.HEAT_PUMP, False),
+                                       ('Total District Heating Network Cost', 'dhdistrictcost', PlantType.DISTRICT_HEATING, c['totalcap']),
+                                       ('District Heating O&M Cost', 'dhdistrictoandmcost', PlantType.DISTRICT_HEATING, c['totaloam'])):
+        ip = model.InputParameters.get(name)
+        if ip is None:
+            continue
+        try:
+            given = float(str(ip.sValue).split()[0])
+        except (ValueError, IndexError):
+            continue
+        if given < 0:
+            continue        # the documented "not provided" sentinel
+        equip.append({'name': name, 'given': rat(given), 'got': g(getattr(e, attr)), 'applies': bool(pt == plant and not blocked)})
+    return {'c': c, 'equip': equip, 'family': type(e).__name__, 'plant': str(sp.plant_type.value.name), 'enduse': str(sp.enduse_option.value.name),
             'wellcorr': str(getattr(e.wellcorrelation.value, 'name', e.wellcorrelation.value))}
 
 
@@ -105,6 +124,10 @@ def config_jobs(configs: list, tier: str) -> list:
             if rng.random() < 0.3:
                 p[name] = gen.fmt(rng.uniform(0, 3))
         p['Well Drilling Cost Correlation'] = (k % 17) + 1
+        for name, plants, hi in (('Absorption Chiller Capital Cost', (5,), 30), ('Absorption Chiller O&M Cost', (5,), 3), ('Heat Pump Capital Cost', (6,), 30),
+                                 ('Total District Heating Network Cost', (7,), 50), ('District Heating O&M Cost', (7,), 5)):
+            if pt in plants and rng.random() < 0.6:
+                p[name] = 0 if rng.random() < 0.35 else gen.fmt(rng.uniform(0, hi))      # zero is a cost, not the sentinel
         if rng.random() < 0.5:
             gen.add_redrill(p, rng)
         if rng.random() < 0.2:
